@@ -146,6 +146,11 @@ def run(tier):
         res = progs.run_programs(check, wp, family, behs, table, core.seed(), ["none"], progs.VERS[family][:1])
         classify(check, res, table)
         check.cov["exhaustive_constant_expressions_%s" % family] = len(behs)
+    # a sequence of two valid statements is accepted and is the two statements
+    for family in ("7", "5"):
+        for a, b, ver, what, detail in progs.statement_pairs(check, wp, family, core.seed(), 20000 if tier == "quick" else 300000):
+            if what != "shared-node":
+                check.violation({"class": what, "family": family}, {"src": "<?php " + a + "\n" + b, "ver": ver, "first": a, "second": b, "detail": detail})
     check.cov["variants_never_generated"] = uncovered
     # version gating: PHP 7-only syntax must be reported under 5.x
     table, behs = syntax.generate(check, "7", num=n, seed=core.seed() + 7, depth=3)
